@@ -14,6 +14,20 @@ pub enum Op {
     Insert(usize, u64),
     ExtendClone(usize),
     Resize(usize, u64),
+    /// `drain(start..end)`, then `next` (`f`) / `next_back` (`b`) per script, then drop (`d`) or `keep_rest` (`k`)
+    Drain(usize, usize, Vec<u8>, u8),
+    /// `extract_if(pred)`, `calls` × `next()`, drop
+    ExtractIf(usize),
+    /// `into_iter()`, pulls per script, drop of the iterator (consumes the vector)
+    IntoIter(Vec<u8>),
+    /// `map_in_place(f)` (consumes the vector, yields one of the same type)
+    MapInPlace,
+    /// `append(owned slice with these ids)`
+    Append(Vec<u64>),
+}
+
+fn script_text(s: &[u8]) -> String {
+    if s.is_empty() { "-".to_string() } else { String::from_utf8_lossy(s).to_string() }
 }
 
 impl Op {
@@ -30,7 +44,16 @@ impl Op {
             Op::Insert(..) => "insert",
             Op::ExtendClone(_) => "extend_clone",
             Op::Resize(..) => "resize",
+            Op::Drain(..) => "drain",
+            Op::ExtractIf(_) => "extract_if",
+            Op::IntoIter(_) => "into_iter",
+            Op::MapInPlace => "map_in_place",
+            Op::Append(_) => "append",
         }
+    }
+    /// does the operation take the vector by value?
+    pub fn consumes(&self) -> bool {
+        matches!(self, Op::IntoIter(_) | Op::MapInPlace)
     }
     /// positional arguments of the line protocol
     pub fn args(&self) -> String {
@@ -40,11 +63,16 @@ impl Op {
             Op::Push(id) => format!(" {id}"),
             Op::Insert(i, id) => format!(" {i} {id}"),
             Op::Resize(n, id) => format!(" {n} {id}"),
+            Op::Drain(s, e, sc, f) => format!(" {s} {e} s={} fin={}", script_text(sc), *f as char),
+            Op::ExtractIf(c) => format!(" {c}"),
+            Op::IntoIter(sc) => format!(" s={}", script_text(sc)),
+            Op::MapInPlace => String::new(),
+            Op::Append(ids) => format!(" src={}", csv(ids)),
         }
     }
     /// does the operation need spare capacity / is it unavailable on `BumpBox<[T]>`?
     pub fn grows(&self) -> bool {
-        matches!(self, Op::Push(_) | Op::Insert(..) | Op::ExtendClone(_) | Op::Resize(..))
+        matches!(self, Op::Push(_) | Op::Insert(..) | Op::ExtendClone(_) | Op::Resize(..) | Op::Append(_))
     }
     /// number of additional elements the operation needs room for (given the current length)
     pub fn additional(&self, len: usize) -> usize {
@@ -53,6 +81,7 @@ impl Op {
             Op::Insert(i, _) => usize::from(*i <= len),
             Op::ExtendClone(n) => *n,
             Op::Resize(n, _) => n.saturating_sub(len),
+            Op::Append(ids) => ids.len(),
             _ => 0,
         }
     }
@@ -60,7 +89,8 @@ impl Op {
 
 /// `std::vec::Vec<u64>` executing the same operation with the same (panic-free) callback outcomes.
 /// `Err(())`: std panics (out-of-range argument).  Returns the text of the returned value.
-pub fn std_apply(v: &mut Vec<u64>, op: &Op, o: &[Oc]) -> Result<String, ()> {
+pub fn std_apply(v: &mut Vec<u64>, op: &Op, o: &[Oc]) -> Result<(String, usize), ()> {
+    let consumed = Cell::new(0usize);
     let mut q: VecDeque<u64> = o
         .iter()
         .map(|x| match x {
@@ -68,7 +98,10 @@ pub fn std_apply(v: &mut Vec<u64>, op: &Op, o: &[Oc]) -> Result<String, ()> {
             Oc::Panic => unreachable!("std reference is only run on panic-free oracles"),
         })
         .collect();
-    let mut next = move || q.pop_front().expect("oracle too short for the std reference");
+    let mut next = || {
+        consumed.set(consumed.get() + 1);
+        q.pop_front().expect("oracle too short for the std reference")
+    };
     let r = match op {
         Op::Retain => {
             v.retain_mut(|_| next() != 0);
@@ -131,12 +164,80 @@ pub fn std_apply(v: &mut Vec<u64>, op: &Op, o: &[Oc]) -> Result<String, ()> {
             }
             String::new()
         }
+        Op::Drain(start, end, script, fin) => {
+            if start > end || *end > v.len() {
+                return Err(());
+            }
+            let mut range: VecDeque<u64> = v[*start..*end].iter().copied().collect();
+            let mut ys = Vec::new();
+            for c in script {
+                let y = if *c == b'f' { range.pop_front() } else { range.pop_back() };
+                ys.push(y.map_or("none".to_string(), |x| x.to_string()));
+            }
+            let mut out: Vec<u64> = v[..*start].to_vec();
+            if *fin == b'k' {
+                out.extend(range.iter().copied());
+            }
+            out.extend_from_slice(&v[*end..]);
+            *v = out;
+            if ys.is_empty() { "-".to_string() } else { ys.join("/") }
+        }
+        Op::ExtractIf(calls) => {
+            let mut kept = Vec::new();
+            let mut out = Vec::new();
+            let mut i = 0;
+            let mut calls_left = *calls;
+            while calls_left > 0 && i < v.len() {
+                // one `next()`: scan until an element is extracted
+                let mut found = false;
+                while i < v.len() {
+                    let x = v[i];
+                    i += 1;
+                    if next() != 0 {
+                        out.push(x);
+                        found = true;
+                        break;
+                    }
+                    kept.push(x);
+                }
+                if !found {
+                    break;
+                }
+                calls_left -= 1;
+            }
+            kept.extend_from_slice(&v[i..]);
+            *v = kept;
+            csv(&out)
+        }
+        Op::IntoIter(script) => {
+            let mut range: VecDeque<u64> = v.iter().copied().collect();
+            let mut ys = Vec::new();
+            for c in script {
+                let y = if *c == b'f' { range.pop_front() } else { range.pop_back() };
+                ys.push(y.map_or("none".to_string(), |x| x.to_string()));
+            }
+            v.clear();
+            if ys.is_empty() { "-".to_string() } else { ys.join("/") }
+        }
+        Op::MapInPlace => {
+            for x in v.iter_mut() {
+                *x = next();
+            }
+            String::new()
+        }
+        Op::Append(ids) => {
+            v.extend_from_slice(ids);
+            String::new()
+        }
     };
-    Ok(r)
+    drop(next);
+    Ok((r, consumed.get()))
 }
 
+pub type DynVec<'a> = Box<dyn VecDyn<'a> + 'a>;
+
 /// type-erased view of one real vector
-pub trait VecDyn {
+pub trait VecDyn<'a> {
     fn ids(&self) -> Vec<u64>;
     fn len(&self) -> usize;
     fn cap(&self) -> usize;
@@ -144,6 +245,24 @@ pub trait VecDyn {
     /// runs the operation on the real type; values that are returned are stashed; the text of the
     /// returned value is the result
     fn apply(&mut self, op: &Op) -> String;
+    /// operations that take the vector by value; the vector they produce (if any) is returned
+    fn consume(self: Box<Self>, op: &Op) -> (String, Option<DynVec<'a>>);
+    /// `split_off(start..end)` where the type has it (the returned part has the same type)
+    fn split_off_dyn(&mut self, start: usize, end: usize) -> Option<DynVec<'a>>;
+    /// `shrink_to_fit` where the type has it
+    fn shrink_dyn(&mut self) -> bool;
+}
+
+fn pulls_text<T: Elem>(it: &mut dyn DoubleEndedIterator<Item = T>, script: &[u8]) -> String {
+    let mut ys = Vec::new();
+    for c in script {
+        let y = if *c == b'f' { it.next() } else { it.next_back() };
+        ys.push(match y {
+            None => "none".to_string(),
+            Some(e) => val_text(e),
+        });
+    }
+    if ys.is_empty() { "-".to_string() } else { ys.join("/") }
 }
 
 fn opt_text<T: Elem>(x: Option<T>) -> String {
@@ -184,14 +303,32 @@ macro_rules! impl_vecdyn {
                 $s.resize(*n, $T::make(*id));
                 String::new()
             }
+            Op::Append(ids) => {
+                let src: Vec<$T> = ids.iter().map(|i| $T::make(*i)).collect();
+                $s.append(src);
+                String::new()
+            }
             _ => unreachable!("operation not wired"),
         }
     };
     (@grow $s:ident, $op:ident, $T:ident, no) => {
         unreachable!("operation {:?} is not available on this type", $op)
     };
-    ([$($gen:tt)*] $ty:ty, $T:ident, cap = |$c:ident| $cap:expr, grow = $g:ident) => {
-        impl<$($gen)*> VecDyn for $ty {
+    (@split $s:ident, $a:ident, $b:ident, yes) => {
+        Some(Box::new($s.split_off($a..$b)))
+    };
+    (@split $s:ident, $a:ident, $b:ident, no) => {
+        None
+    };
+    (@shrink $s:ident, yes) => {{
+        $s.shrink_to_fit();
+        true
+    }};
+    (@shrink $s:ident, no) => {
+        false
+    };
+    ([$($gen:tt)*] $ty:ty, $T:ident, cap = |$c:ident| $cap:expr, grow = $g:ident, split = $sp:ident, shrink = $sh:ident) => {
+        impl<$($gen)*> VecDyn<'a> for $ty {
             fn ids(&self) -> Vec<u64> {
                 self.as_slice().iter().map(|e| e.ident()).collect()
             }
@@ -227,8 +364,56 @@ macro_rules! impl_vecdyn {
                     Op::Pop => opt_text(s.pop()),
                     Op::Remove(i) => val_text(s.remove(*i)),
                     Op::SwapRemove(i) => val_text(s.swap_remove(*i)),
+                    Op::Drain(start, end, script, fin) => {
+                        let mut d = s.drain(*start..*end);
+                        let t = pulls_text(&mut d, script);
+                        if *fin == b'k' {
+                            d.keep_rest();
+                        } else {
+                            drop(d);
+                        }
+                        t
+                    }
+                    Op::ExtractIf(calls) => {
+                        let mut it = s.extract_if($T::pred);
+                        let mut ids = Vec::new();
+                        for _ in 0..*calls {
+                            match it.next() {
+                                Some(e) => {
+                                    ids.push(e.ident());
+                                    e.stash();
+                                }
+                                None => break,
+                            }
+                        }
+                        drop(it);
+                        csv(&ids)
+                    }
                     other => impl_vecdyn!(@grow s, other, $T, $g),
                 }
+            }
+            fn consume(self: Box<Self>, op: &Op) -> (String, Option<DynVec<'a>>) {
+                match op {
+                    Op::IntoIter(script) => {
+                        let mut it = (*self).into_iter();
+                        let t = pulls_text(&mut it, script);
+                        drop(it);
+                        (t, None)
+                    }
+                    Op::MapInPlace => {
+                        let new = (*self).map_in_place($T::map_cb);
+                        (String::new(), Some(Box::new(new)))
+                    }
+                    _ => unreachable!("not a consuming operation"),
+                }
+            }
+            fn split_off_dyn(&mut self, start: usize, end: usize) -> Option<DynVec<'a>> {
+                let s = self;
+                impl_vecdyn!(@split s, start, end, $sp)
+            }
+            fn shrink_dyn(&mut self) -> bool {
+                let s = self;
+                impl_vecdyn!(@shrink s, $sh)
             }
         }
     };
@@ -248,13 +433,13 @@ impl<T: Elem> SrcElem<T> {
     }
 }
 
-impl_vecdyn!(['a, T: Elem] BumpBox<'a, [T]>, T, cap = |v| v.len(), grow = no);
-impl_vecdyn!(['a, T: Elem] FixedBumpVec<'a, T>, T, cap = |v| v.capacity(), grow = yes);
+impl_vecdyn!(['a, T: Elem] BumpBox<'a, [T]>, T, cap = |v| v.len(), grow = no, split = yes, shrink = no);
+impl_vecdyn!(['a, T: Elem] FixedBumpVec<'a, T>, T, cap = |v| v.capacity(), grow = yes, split = yes, shrink = no);
 
 macro_rules! impl_for_settings {
     ($S:ty) => {
-        impl_vecdyn!(['a, T: Elem] BumpVec<T, &'a Bump<Global, $S>>, T, cap = |v| v.capacity(), grow = yes);
-        impl_vecdyn!(['a, T: Elem] MutBumpVec<T, &'a mut Bump<Global, $S>>, T, cap = |v| v.capacity(), grow = yes);
+        impl_vecdyn!(['a, T: Elem] BumpVec<T, &'a Bump<Global, $S>>, T, cap = |v| v.capacity(), grow = yes, split = yes, shrink = yes);
+        impl_vecdyn!(['a, T: Elem] MutBumpVec<T, &'a mut Bump<Global, $S>>, T, cap = |v| v.capacity(), grow = yes, split = no, shrink = no);
     };
 }
 impl_for_settings!(S1U);
